@@ -254,6 +254,19 @@ class FnTranslator:
                     and len(e[3][1]) == 2 and e[3][1][1][0] == "pident" and e[3][2] == ["path", e[3][1][1][1]]:
                 return self.expr(e[2])             # a borrow mapped through the identity closure
             args = clist([self.expr(a) for a in e[2:]])
+            if self.interior and segs == ["Self", "default"] and len(e) == 2 and self.struct_fields and getattr(self, "derive_default", False):
+                # `#[derive(Default)]`: every field takes the default of its type
+                def dflt(ty):
+                    ty = "".join(ty.split())
+                    if ty.startswith("Option<"):
+                        return "ECon \"None\" []"
+                    if ty.startswith("Vec<"):
+                        return "EArr []"
+                    return "ECon %s []" % cs(ty.partition("<")[0] + "::default")
+                fields = ["(%s, %s)" % (cs(f), dflt(ty)) for f, ty in self.struct_fields.items()]
+                if getattr(self, "diag_sink", None):
+                    fields.append("(\"__diags\", EArr [])")
+                return "(ERecord %s %s None)" % (cs(self.self_type), clist(fields))
             if segs[-1][:1].isupper():
                 return "(ECon %s %s)" % (cs(self.con_name(segs)), args)
             if segs[0] == "Self" and self.self_type:
@@ -279,6 +292,17 @@ class FnTranslator:
                     "".join(self.param_types.get(S(e[1][1]), "").split()).startswith("implInto<Option<"):
                 # `x.into()` of a parameter declared `impl Into<Option<T>>`: an Option stays, anything else becomes Some
                 return "(ECall \"into_option\" [%s])" % self.expr(e[1])
+            if self.interior and name in getattr(self, "state_methods", {}) and e[1][0] == "path" and len(e[1]) == 2:
+                # a method that updates its receiver (translated by state passing): the receiver becomes the returned state
+                x, q = S(e[1][1]), self.state_methods[name]
+                self.calls.add(q)
+                return "(EAssign %s [] (ECall %s %s))" % (cs(x), cs(q), clist(["EVar %s" % cs(x)] + [self.expr(a) for a in e[3:]]))
+            if self.interior and name == "push" and len(e) == 4 and e[1][0] == "field":
+                x, sels = self.place(e[1])          # `obj.field.push(x)`: that field becomes field ++ [x]
+                return "(EAssign %s %s (ECall \"push\" [%s; %s]))" % (cs(x), clist(sels), self.expr(e[1]), self.expr(e[3]))
+            if self.interior and name == "first" and len(e) == 3:
+                return ("(EIf (ECall \"is_empty\" [%s]) (ECon \"None\" []) (ECon \"Some\" [EIndex %s (EConst (VNat 0))]))" % (
+                    self.expr(e[1]), self.expr(e[1])))
             if self.interior and name == "push" and len(e) == 4 and e[1][0] == "path" and len(e[1]) == 2:
                 x = S(e[1][1])                     # `v.push(x)` on a local vector: v = v ++ [x]
                 return "(EAssign %s [] (ECall \"push\" [EVar %s; %s]))" % (cs(x), cs(x), self.expr(e[3]))
@@ -322,7 +346,7 @@ class FnTranslator:
             if name in ("map", "map_err") and self.interior and len(e) == 4 and e[3][0] in ("path", "closure") and \
                     not (name == "map_err" and e[3][0] == "path" and len(e[3]) == 2):
                 return self.hof_map(e[1], e[3], name == "map_err")
-            if name in ("as_slice", "as_ref", "iter", "into_iter") and self.interior and len(e) == 3:
+            if name in ("as_slice", "as_ref", "as_str", "iter", "into_iter") and self.interior and len(e) == 3:
                 return "(ECall \"into\" [%s])" % self.expr(e[1])      # a view of the same value
             if name == "into" and self.interior:
                 # a conversion into another type (StdError into the contract's error type): kept visible
@@ -392,8 +416,20 @@ class FnTranslator:
             # `e?`: the definition of the operator (the error is converted with From::from and returned)
             return ("(EMatch %s [(PCon \"Ok\" [PVar \"try_v\"], EVar \"try_v\"); "
                     "(PCon \"Err\" [PVar \"try_e\"], EReturn (ECon \"Err\" [ECon \"From::from\" [EVar \"try_e\"]]))])" % self.try_operand(e[1]))
+        if h == "diag" and self.interior and getattr(self, "diag_sink", None):
+            # ghost state: the message is appended to the list `__diags` of the object being built (control flow goes on)
+            x = self.diag_sink
+            return "(EAssign %s [(LFld \"__diags\")] (ECall \"push\" [EField (EVar %s) \"__diags\"; EConst (VStr %s)]))" % (
+                cs(x), cs(x), cs(S(e[2]) if len(e) > 2 else ""))
         if h == "diag" and self.interior:
             return "(EConst VUnit)"        # a diagnostic is recorded by proc-macro-error; control flow goes on
+        if h == "forin" and self.interior:
+            # `for PAT in XS { BODY }` over a collection: its elements in order
+            self.hof_no = getattr(self, "hof_no", 0) + 1
+            n = self.hof_no
+            return ("(EBlock [SLet (PVar \"for_src%d\") %s; SExpr (EFor \"for_i%d\" (EConst (VNat 0)) (ECall \"len\" [EVar \"for_src%d\"]) "
+                    "(EBlock [SLet %s (EIndex (EVar \"for_src%d\") (EVar \"for_i%d\")); SExpr %s]))])" % (
+                        n, self.expr(e[2]), n, n, self.pat(e[1]), n, n, self.block(e[3])))
         if h == "quote" and self.interior:
             # a code template: a symbolic value made of its text and the values of the variables it splices
             text = S(e[1])
@@ -684,6 +720,8 @@ def translate_fn(sx, self_type=None, struct_fields=None, qualified=None, setup=N
     for pn, pt in params:
         if pt == "&mut self" and getattr(t, "stateless_self", False) and not t.struct_fields:
             continue                # `&mut self` of a type without fields: there is nothing to mutate
+        if pt == "&mut self" and getattr(t, "mut_self_state", False):
+            continue                # state passing: the method returns the updated `self` (see below)
         if "&mut" in pt.replace(" ", "") or pt == "&mut self":
             raise TranslateError("fn %s: parameter %s is a mutable reference (aliasing is not modelled)" % (name, pn))
         if pn.startswith("?"):
@@ -699,6 +737,11 @@ def translate_fn(sx, self_type=None, struct_fields=None, qualified=None, setup=N
             raise TranslateError("fn %s: const generic %s is not the length of a parameter array" % (name, c))
         cbind.append("(%s, %s)" % (cs(c), cs(owner)))
     btext = t.block(body)
+    if getattr(t, "mut_self_state", False) and dict(params).get("self") == "&mut self":
+        # a method that updates its receiver and returns nothing: the updated receiver is the result
+        if "EReturn" in btext:
+            raise TranslateError("fn %s: `return` inside a method translated by state passing" % name)
+        btext = "(EBlock [SExpr %s; STail (EVar \"self\")])" % btext
     if prelude:
         btext = "(EBlock %s)" % clist(prelude + ["STail %s" % btext])
     text = "{| fn_name := %s; fn_params := %s; fn_consts := %s;\n     fn_body := %s |}" % (
@@ -1015,6 +1058,47 @@ def translate_msg_new():
     return out
 
 
+ATTR_PARSERS = ["Custom::new", "ContractErrorAttr::new", "ContractMessageAttr::new", "MsgAttr::new", "OverrideEntryPoint::new",
+                "VariantAttrForwarding::new", "MsgAttrForwarding::new", "PayloadFieldParam::new", "DataFieldParams::new",
+                "SylviaFeatures::new"]
+
+
+def translate_attr_parser():
+    """sylvia-derive/src/parser/attributes/mod.rs: `SylviaAttribute::new` (which attributes are the framework's own) and
+    `ParsedSylviaAttributes::new` with `match_attribute` (what is collected from the attributes of an item, in which order,
+    which repetitions are refused). Diagnostics are appended to a ghost field `__diags` of the object being built."""
+    rel = "parser/attributes/mod.rs"
+    kv = fetch_ast(os.path.join(common.REPO, "sylvia-derive", "src", *rel.split("/")))
+
+    def setup_sv(t):
+        t.interior = True
+        t.accessor_methods = {"path"}
+    out = translate_methods(rel, {"SylviaAttribute": ["new", "match_attribute"]}, setup=setup_sv, kv=kv)
+
+    def setup_new(t):
+        t.interior = True
+        t.derive_default = True
+        t.diag_sink = "result"
+        t.externals = {"require_list", "msg_type"}
+        t.state_methods = {"match_attribute": "ParsedSylviaAttributes::match_attribute"}
+
+    def setup_match(t):
+        t.interior = True
+        t.mut_self_state = True
+        t.diag_sink = "self"
+    for nm in ATTR_PARSERS:
+        FOREIGN[nm] = "call:extern::" + nm
+    FOREIGN["SylviaAttribute::new"] = "call:SylviaAttribute::new"
+    FOREIGN["DataFieldParams::default"] = "DataFieldParams::default"
+    known = {"extern::" + nm for nm in ATTR_PARSERS} | {"SylviaAttribute::new", "extern::require_list", "extern::msg_type",
+                                                         "push", "is_none", "is_empty", "len"}
+    out += translate_methods(rel, {"ParsedSylviaAttributes": ["new"]}, setup=setup_new, kv=kv,
+                             extra_known=known | {"ParsedSylviaAttributes::match_attribute"})
+    out += translate_methods(rel, {"ParsedSylviaAttributes": ["match_attribute"]}, setup=setup_match, kv=kv, extra_known=known)
+    FOREIGN["SylviaAttribute::new"] = "call:extern::SylviaAttribute::new"
+    return out
+
+
 def translate_fold():
     """sylvia-derive/src/fold.rs: `StripInput` - what is removed from the user's item before it is re-emitted."""
     def setup(t):
@@ -1230,6 +1314,10 @@ def generate():
     except TranslateError as e:
         msgnew, _ = [], errors.append("macro logic (message constructors: */communication/enum_msg.rs, struct_msg.rs): %s" % e)
     try:
+        parsefns = translate_attr_parser()
+    except TranslateError as e:
+        parsefns, _ = [], errors.append("macro logic (attribute parser: parser/attributes/mod.rs): %s" % e)
+    try:
         foldfns = translate_fold()
     except TranslateError as e:
         foldfns, _ = [], errors.append("macro logic (fold.rs StripInput): %s" % e)
@@ -1296,6 +1384,10 @@ def generate():
         "GenImpFold.v": gen_file("what is removed from the user's item before it is re-emitted (fold.rs)", [
             "(* StripInput: fold_trait_item_fn, fold_impl_item_fn, fold_item_trait, fold_item_impl, remove_input_attr *)",
             "Definition fold_fns : program :=", prog(foldfns)]),
+        "GenImpParse.v": gen_file("the parser of the framework's attributes (parser/attributes/mod.rs)", [
+            "(* SylviaAttribute::new / match_attribute, ParsedSylviaAttributes::new / match_attribute (state passing; diagnostics",
+            "   appended to the ghost field __diags) *)",
+            "Definition attrparse_fns : program :=", prog(parsefns)]),
         "GenImpBridge.v": gen_file("the contract-level message (types/interfaces.rs, types/msg_type.rs, contract/communication/wrapper_msg.rs)", [
             "(* Interfaces::emit_*, MsgType::emit_ctx_dispatch_values, GlueMessage::emit *)",
             "Definition bridge_fns : program :=", prog(bridge)])}
